@@ -110,6 +110,14 @@ func loadCorpus() {
 		qcase{text: "create (n:New:Known) return n"},
 		qcase{text: "create (a:Fresh1:User:Fresh2)-[:EdgeKind1]->(b:Known:Fresh3) return a"},
 		qcase{text: "match (n:NodeKind1) set n:Brand:Known:New2 return n"},
+		// one kind list in different syntactic positions and in both orders
+		qcase{text: "match (n:NodeKind2:NodeKind1) return n"},
+		qcase{text: "match (n) where n:NodeKind2:NodeKind1 return n"},
+		qcase{text: "match (n:NodeKind1:NodeKind2) return n"},
+		qcase{text: "match (n) where n:NodeKind1:NodeKind2 return n"},
+		qcase{text: "match (n) where n:NodeKind2 or n:NodeKind1 return n"},
+		qcase{text: "match (a)-[r:EdgeKind2|EdgeKind1]->(b:NodeKind2:NodeKind1) return r"},
+		qcase{text: "match (a:NodeKind2:NodeKind1)-[r]->(b) where b:NodeKind2:NodeKind1 return a, b"},
 	)
 	corpus = append(corpus, rich...)
 	// a few builder-style / awkward extras
@@ -286,8 +294,76 @@ func reference(qi int) (outcome, error) {
 			return o, fmt.Errorf("repeated solo translation of %q differs:\n%s\n%s", corpus[qi].text, o.SQL, o2.SQL)
 		}
 	}
+	// one kind mapper for the life of the process, shared by every query of the corpus in whatever order
+	// they come: a translation that succeeded once must give the same bytes whenever it is repeated, no
+	// matter which other queries were translated against that mapper in between
+	if d := sharedMapperHistory(qi); d != "" {
+		return o, fmt.Errorf("translation of %q against a long-lived pgutil.InMemoryKindMapper changed after other queries were translated: %s", corpus[qi].text, d)
+	}
 	refCache[qi] = o
 	return o, nil
+}
+
+var (
+	sharedMapper *pgutil.InMemoryKindMapper
+	sharedSeen   = map[int]string{}
+	sharedOrder  []int
+)
+
+func translateShared(qi int) (string, bool) {
+	q, err := parse(corpus[qi])
+	if err != nil {
+		return "", false
+	}
+	var (
+		res translate.Result
+		pan bool
+	)
+	func() {
+		defer func() {
+			if recover() != nil {
+				pan = true
+			}
+		}()
+		res, err = translate.Translate(context.Background(), q, sharedMapper, cloneParams(corpus[qi].params), translate.DefaultGraphID)
+	}()
+	if pan || err != nil {
+		return "", false
+	}
+	sql, ferr := translate.Translated(res)
+	if ferr != nil {
+		return "", false
+	}
+	return sql + fmt.Sprint(res.Parameters), true
+}
+
+func sharedMapperHistory(qi int) string {
+	if sharedMapper == nil {
+		sharedMapper = pgutil.NewInMemoryKindMapper()
+		for _, k := range []string{"NodeKind1", "NodeKind2", "EdgeKind1", "EdgeKind2", "User", "Group", "Computer", "MemberOf", "Known"} {
+			sharedMapper.Put(graph.StringKind(k))
+		}
+	}
+	// re-ask up to three earlier queries (spread over the history) before and after the new one
+	recheck := func() string {
+		for k := 1; k <= 3 && len(sharedOrder) > 0; k++ {
+			old := sharedOrder[(qi*7+k*len(sharedOrder)/3)%len(sharedOrder)]
+			if now, ok := translateShared(old); !ok || now != sharedSeen[old] {
+				return fmt.Sprintf("%q gave\n  %s\nearlier in this process and now gives\n  %s", corpus[old].text, sharedSeen[old], now)
+			}
+		}
+		return ""
+	}
+	if d := recheck(); d != "" {
+		return d
+	}
+	if out, ok := translateShared(qi); ok {
+		if _, seen := sharedSeen[qi]; !seen {
+			sharedSeen[qi] = out
+			sharedOrder = append(sharedOrder, qi)
+		}
+	}
+	return recheck()
 }
 
 // cloneParams deep-copies parameter values (maps and slices of any type, nil-ness preserved), so that
